@@ -88,6 +88,22 @@ def mc_nets():
     return out
 
 
+def two_class_network(rng, na=60, ka=2, nb=30, kb=4):
+    """2-cliques only, two degree classes (na vertices of degree ka, nb of degree kb), wired at random as a simple graph"""
+    n = na + nb
+    deg = [ka] * na + [kb] * nb
+    order = list(range(n))
+    rng.shuffle(order)                      # the classes are not contiguous in vertex order
+    deg = [deg[order.index(v)] for v in range(n)]
+    for _ in range(200):
+        stubs = [v for v in range(n) for _k in range(deg[v])]
+        rng.shuffle(stubs)
+        pairs = list(zip(stubs[0::2], stubs[1::2]))
+        if all(a != b for a, b in pairs) and len({frozenset(p) for p in pairs}) == len(pairs):
+            return [(min(a, b), max(a, b), "2-clique", i) for i, (a, b) in enumerate(pairs)], [(d,) for d in deg], ["2-clique"]
+    raise Exception("no simple two-class network found")
+
+
 def make_target(rng, edges, jd, tops, mode):
     """symmetric integer weights on ordered pairs of excess keys; mode: uniform | random | assort | holes"""
     tgt = []
@@ -165,7 +181,8 @@ def execute(case):
         _INV.update({L[i]: i for i in range(n)})
     net.G.add_nodes_from(L)
     for v in range(n):
-        net.G.nodes[L[v]][NN.JOINT_DEGREE] = tuple(case["jd"][v])
+        # the generators store whatever sequence they were given: tuples (the samplers' output) or lists
+        net.G.nodes[L[v]][NN.JOINT_DEGREE] = list(case["jd"][v]) if case.get("jd_as_list") else tuple(case["jd"][v])
     for a, b, t, m in case["edges"]:
         net.G.add_edge(L[a], L[b])
         net.G.edges[L[a], L[b]][NN.TOPOLOGY] = t
@@ -180,7 +197,8 @@ def execute(case):
           "target": case["target"], "g0": _graph_edges(net.G), "g0_after": [], "input_annotations_same": True,
           "output_annotations_same": True, "gout": [], "gout_again": [], "vout": [], "raised": "", "timeout": False,
           "steps_known": False, "steps": [], "aborted": False, "distance": bool(case.get("distance"))}
-    nattr0 = {v: dict(net.G.nodes[v]) for v in net.G.nodes()}
+    import copy as _copy
+    nattr0 = {v: _copy.deepcopy(dict(net.G.nodes[v])) for v in net.G.nodes()}
     try:
         target = gcmpy.JointExcessJointDegreeMatrices({TN.EJKS: ejks, TN.EDGE_NAMES: list(case["tops"])})
         first_target = target
